@@ -7,6 +7,7 @@
 #include <time.h>
 #include <errno.h>
 #include "vtmt.h"
+#include "galloc.h"
 
 static PMutex *mx, *mx_ab[2]; static PCondVariable *cv; static const char *base;
 static int call_ (int t, const char *op) {
@@ -153,6 +154,7 @@ int main (int argc, char **argv) {
 	if (argc < 6) return 2;
 	base = argv[2];
 	p_libsys_init (); p_libsys_shutdown (); p_libsys_init ();      /* the library is used after a shutdown / re-initialisation cycle */
+	if (!ga_install ()) return 2;      /* fresh memory is garbage, released memory is overwritten (galloc.h) */
 	mx_ab[0] = mx = p_mutex_new (); mx_ab[1] = p_mutex_new (); cv = p_cond_variable_new ();
 	if (!strcmp (argv[1], "fresh")) {
 		vtm_init (1); vtm_open (base, 0);
@@ -220,6 +222,7 @@ int main (int argc, char **argv) {
 	}
 	p_cond_variable_free (cv); p_mutex_free (mx_ab[0]); p_mutex_free (mx_ab[1]);
 	vtm_close ();
+	p_mem_restore_vtable ();
 	p_libsys_shutdown ();
 	return 0;
 }
